@@ -219,6 +219,15 @@ def index_mir(text):
     i = 0; n = len(lines)
     while i < n:
         ln = lines[i]
+        if ln.startswith(('const ', 'static ')) and not ln.endswith('{'):
+            m = re.match(r'(?:const|static(?: mut)?) ((?:.*?<impl at [^>]*>)?.*?): (.*?) = (.*);$', ln)
+            if m:
+                f = Fn(m.group(1), [ln[:-1] + ' {', '    bb0: {', '        _0 = %s;' % m.group(3), '        return;', '    }', '}'])
+                f.kind = 'const'; f.ret = m.group(2)
+                k = f.name
+                while k in fns: k += '#dup'
+                f.key = k; fns[k] = f
+            i += 1; continue
         if ln.startswith(('fn ', 'const ', 'static ')):
             j = i + 1
             while j < n and lines[j] != '}': j += 1
